@@ -359,6 +359,29 @@ func (r *s1run) fieldType(name string) types.Type {
 }
 
 // written reports whether loc is covered by W.
+// nestedFieldType: type of the location a.b.c (struct fields only).
+func (r *s1run) nestedFieldType(loc string) types.Type {
+	parts := strings.Split(loc, ".")
+	t := r.fieldType(parts[0])
+	for _, pn := range parts[1:] {
+		if t == nil {
+			return nil
+		}
+		st, ok := t.Underlying().(*types.Struct)
+		if !ok {
+			return nil
+		}
+		var nt types.Type
+		for j := 0; j < st.NumFields(); j++ {
+			if st.Field(j).Name() == pn {
+				nt = st.Field(j).Type()
+			}
+		}
+		t = nt
+	}
+	return t
+}
+
 func (r *s1run) written(w locSet, loc string) bool {
 	if w[loc] || w["⊤"] {
 		return true
@@ -377,6 +400,13 @@ func (r *s1run) written(w locSet, loc string) bool {
 			return w[base[:i]+"[]fresh"]
 		}
 		return false
+	}
+	// a whole array (sub-)field read as a value (range over the array, comparison with a literal):
+	// covered when every element was written
+	if t := r.nestedFieldType(loc); t != nil {
+		if _, isArr := t.Underlying().(*types.Array); isArr && w[loc+"[]"] {
+			return true
+		}
 	}
 	if i := strings.Index(loc, "."); i >= 0 {
 		return w[loc[:i]]
